@@ -27,6 +27,8 @@ use vkit::{
 
 const PORT: u16 = 0xbeef;
 const TAG: [u8; 6] = *b"DGRAM!";
+/// what the destination host sends back to the source when the datagram arrives
+const TAG_BACK: [u8; 6] = *b"REPLY!";
 
 #[derive(Clone, Debug, PartialEq)]
 pub enum Shape {
@@ -36,6 +38,9 @@ pub enum Shape {
     Star(usize),
     /// three routers in a ring (link networks 3,4,5) each with a host subnet (0,1,2)
     Ring,
+    /// two routers that both join network 0 and network 1; host 0 uses the first as its
+    /// gateway, host 1 the second, so a reply takes the other router
+    Parallel,
 }
 
 #[derive(Clone, Debug, PartialEq)]
@@ -88,6 +93,11 @@ fn topo(shape: &Shape) -> Topo {
             hosts: 3,
             // router i: host subnet i, link to next (3+i), link from previous (3+(i+2)%3)
             routers: (0..3).map(|i| vec![i, 3 + i, 3 + (i + 2) % 3]).collect(),
+        },
+        Shape::Parallel => Topo {
+            nets: 2,
+            hosts: 2,
+            routers: vec![vec![0, 1], vec![0, 1]],
         },
     }
 }
@@ -181,8 +191,26 @@ impl Protocol for HostApp {
         }
         Ok(())
     }
-    fn demux(&self, m: Message, _c: Arc<dyn Session>, _ctl: Control, _mach: Arc<Machine>) -> Result<(), DemuxError> {
-        self.book.got.lock().unwrap().push((self.host, m.to_vec(), sched::vnow()));
+    fn demux(&self, m: Message, _c: Arc<dyn Session>, _ctl: Control, mach: Arc<Machine>) -> Result<(), DemuxError> {
+        let bytes = m.to_vec();
+        self.book.got.lock().unwrap().push((self.host, bytes.clone(), sched::vnow()));
+        // the destination answers: the way back may use other routers, whose ARP caches have
+        // overheard the way there
+        if self.cfg.routes == Routes::Correct && self.host == self.cfg.dst && bytes == TAG {
+            let (id, src, me, book) = (self.id(), self.cfg.src, self.host, self.book.clone());
+            tokio::spawn(async move {
+                let udp = mach.protocol::<Udp>().unwrap();
+                let eps = Endpoints::new(Endpoint::new(host_ip(me), 4001), Endpoint::new(host_ip(src), PORT));
+                match udp.open_for_sending(id, eps, mach.clone()).await {
+                    Ok(s) => {
+                        if let Err(e) = s.send(Message::new(TAG_BACK.to_vec()), mach.clone()) {
+                            book.notes.lock().unwrap().push(format!("reply send failed: {e:?}"));
+                        }
+                    }
+                    Err(e) => book.notes.lock().unwrap().push(format!("reply open failed: {e:?}")),
+                }
+            });
+        }
         Ok(())
     }
 }
@@ -221,7 +249,14 @@ impl Scenario for RouteSc {
         let book = Arc::new(Book::default());
         let mut machines = vec![];
         // which router is the gateway of host h: the first router attached to network h
-        let gateway_of = |h: usize| (0..t.routers.len()).find(|r| t.routers[*r].contains(&h)).unwrap();
+        let parallel = cfg.shape == Shape::Parallel;
+        let gateway_of = |h: usize| {
+            if parallel {
+                h % t.routers.len()
+            } else {
+                (0..t.routers.len()).find(|r| t.routers[*r].contains(&h)).unwrap()
+            }
+        };
         for h in 0..t.hosts {
             let g = gateway_of(h);
             let table: IpTable<Recipient> = [(host_ip(h), Recipient::new(0, None))].into_iter().collect();
@@ -391,7 +426,7 @@ impl Scenario for RouteSc {
                         format!("datagram seen on networks {seen:?}, the configured path is {path:?}"),
                     ));
                 }
-                let at_dst: Vec<_> = got.iter().filter(|g| g.0 == cfg.dst).collect();
+                let at_dst: Vec<_> = got.iter().filter(|g| g.0 == cfg.dst && g.1 != TAG_BACK).collect();
                 if at_dst.len() != 1 || at_dst[0].1 != want_payload {
                     viols.push(Violation::new(
                         "delivered-to-destination",
@@ -416,13 +451,70 @@ impl Scenario for RouteSc {
                     format!("host {} received the datagram addressed to {}, which no machine owns ({} deliveries in all)", g.0, ghost_ip(cfg.dst), got.len()),
                 ));
             }
-        } else if let Some(g) = got.iter().find(|g| g.0 != cfg.dst) {
+        } else if let Some(g) = got.iter().find(|g| g.0 != cfg.dst && g.1 != TAG_BACK) {
             viols.push(Violation::new(
                 "delivered-to-destination",
                 "ArpRouter::demux",
                 "delivered-to-another-host",
                 format!("host {} received the datagram addressed to host {}", g.0, cfg.dst),
             ));
+        }
+        // --- the reply (correct routes only): same clauses in the other direction ---------------
+        if cfg.routes == Routes::Correct {
+            let mut back: Vec<(usize, u8)> = vec![];
+            for f in wire.iter().filter(|f| f.protocol == ip_type) {
+                let Ok(ih) = Ipv4Header::from_bytes(f.bytes.iter().cloned()) else { continue };
+                if ih.protocol != 17 || f.bytes.len() < 28 {
+                    continue;
+                }
+                if f.bytes[28..] == TAG_BACK {
+                    back.push((f.network, ih.time_to_live));
+                }
+            }
+            let mut path = vec![cfg.dst];
+            let mut r = gateway_of(cfg.dst);
+            for _ in 0..10 {
+                match next_hop(&t, r, cfg.src) {
+                    Some((None, via)) => {
+                        path.push(via);
+                        break;
+                    }
+                    Some((Some(y), via)) => {
+                        path.push(via);
+                        r = y;
+                    }
+                    None => break,
+                }
+            }
+            let seen: Vec<usize> = back.iter().map(|h| h.0).collect();
+            if seen != path {
+                viols.push(Violation::new(
+                    "forward-along-route",
+                    "ArpRouter::demux",
+                    if seen.len() > path.len() { "reply-took-extra-hops" } else if seen.len() < path.len() { "reply-lost-on-a-correct-route" } else { "reply-forwarded-off-the-configured-path" },
+                    format!("reply seen on networks {seen:?} (TTLs {:?}), the configured path back is {path:?}", back.iter().map(|h| h.1).collect::<Vec<_>>()),
+                ));
+            }
+            for w in back.windows(2) {
+                if w[1].1 as i32 != w[0].1 as i32 - 1 {
+                    viols.push(Violation::new(
+                        "ttl-decrement",
+                        "ArpRouter::demux",
+                        "reply-ttl-changed-by-other-than-one",
+                        format!("successive frames of the reply have TTL {} then {}", w[0].1, w[1].1),
+                    ));
+                    break;
+                }
+            }
+            let at_src: Vec<_> = got.iter().filter(|g| g.1 == TAG_BACK).collect();
+            if at_src.len() != 1 || at_src[0].0 != cfg.src {
+                viols.push(Violation::new(
+                    "delivered-to-destination",
+                    "ArpRouter::demux",
+                    if at_src.is_empty() { "reply-not-delivered" } else if at_src.iter().any(|g| g.0 != cfg.src) { "reply-delivered-to-another-host" } else { "reply-delivered-more-than-once" },
+                    format!("the reply for host {} was received by hosts {:?}", cfg.src, at_src.iter().map(|g| g.0).collect::<Vec<_>>()),
+                ));
+            }
         }
         let mut delivered: Vec<(usize, Vec<u8>)> = got.iter().map(|g| (g.0, g.1.clone())).collect();
         delivered.sort();
@@ -468,6 +560,8 @@ pub fn cfgs(tier: &str) -> Vec<(RouteCfg, Bounds)> {
     add(Shape::Line(2), Routes::Loop2, 0, 2, 1);
     add(Shape::Ring, Routes::Correct, 0, 2, 1);
     add(Shape::Ring, Routes::RingLoop, 0, 2, 1);
+    add(Shape::Parallel, Routes::Correct, 0, 1, d);
+    add(Shape::Parallel, Routes::Correct, 1, 0, d);
     add(Shape::Line(1), Routes::Unowned, 0, 1, 1);
     add(Shape::Line(2), Routes::Unowned, 0, 2, 1);
     if !q {
